@@ -1,12 +1,12 @@
 import Proofs.Lemmas.HeapNames
 /-!
-C06 helper lemmas, part 8: the simulation along a whole program.
+C06 helper lemmas: the simulation along a whole program.
 -/
 namespace Proofs.Heap
 open Model.Heap
 open Spec.Val (abs)
 
-theorem run_sim (nv : Nat) (ops : List Op) (hf : FlatWrites ops) :
+theorem run_sim (nv : Nat) (ops : List Op) :
     Inv (run .fixed nv ops) ∧ abs (run .fixed nv ops) = Spec.Val.run nv ops := by
   unfold run Spec.Val.run
   suffices h : ∀ (s : St) (t : Spec.Val.St), Inv s → abs s = t →
@@ -16,18 +16,8 @@ theorem run_sim (nv : Nat) (ops : List Op) (hf : FlatWrites ops) :
   | nil => intro s t hi ha; exact ⟨hi, ha⟩
   | cons op rest ih =>
     intro s t hi ha
-    obtain ⟨h1, h2⟩ := step_sim hi op (hf op (by simp))
+    obtain ⟨h1, h2⟩ := step_sim hi op
     simp only [List.foldl]
-    exact ih (fun o ho => hf o (List.mem_cons_of_mem _ ho)) _ _ h1 (by rw [h2, ha])
-
-theorem flat_of_target (w : Op) (b : Place) (hw : w.target = some b) (hb : b.isRoot = true) : w.flat = true := by
-  cases w <;> simp [Op.target] at hw <;> subst hw <;> simpa [Op.flat] using hb
-
-theorem flat_append (ops : List Op) (hf : FlatWrites ops) (l : List Op) (hl : ∀ o ∈ l, o.flat = true) :
-    FlatWrites (ops ++ l) := by
-  intro o ho
-  rcases List.mem_append.mp ho with h | h
-  · exact hf o h
-  · exact hl o h
+    exact ih _ _ h1 (by rw [h2, ha])
 
 end Proofs.Heap
